@@ -1,6 +1,7 @@
 package scen
 
 import (
+	"encoding/json"
 	"fmt"
 	"sort"
 	"strings"
@@ -80,6 +81,11 @@ func refMatrixReplace(s string, perm map[string]string) (out string, unknown []s
 	return b.String(), unknown, tokens
 }
 
+var attributeNames = map[string]bool{"agents": true, "depends_on": true, "timeout_in_minutes": true, "retry": true, "artifact_paths": true, "branches": true, "if": true,
+	"soft_fail": true, "concurrency": true, "parallelism": true, "priority": true, "notify": true, "skip": true, "allow_dependency_failure": true}
+
+func isAttributeName(k string) bool { return attributeNames[k] }
+
 func C12() *engine.Scenario {
 	return &engine.Scenario{
 		ID:         "C12",
@@ -120,6 +126,9 @@ func runC12(c *engine.Ctx) {
 			switch p.Draw(8, "str:tokval?") {
 			case 6, 7:
 				return tokenValues[p.Draw(len(tokenValues), "str:tokval")]
+			case 4:
+				// the empty string is a value like any other
+				return ""
 			case 5:
 				// values that mean something to a template or shell engine: they are plain text here
 				return []string{"$HOME/bin", "${TARGET}-release", "price-$1", "a$$b", "$0", "${1}x", "\\1", "$", "%s", "{{.}}", "$matrix"}[p.Draw(11, "str:dollarval")]
@@ -330,6 +339,11 @@ func runC12(c *engine.Ctx) {
 	}
 
 	before := view.Dump(&cs)
+	// the step as a document (its own JSON form), for the document-level view of the same rule
+	var docBefore *gen.Node
+	if bj, err := json.Marshal(&cs); err == nil {
+		docBefore, _ = gen.FromJSON(bj)
+	}
 	var siblingBefore *gen.Node
 	if sibling != nil {
 		siblingBefore = view.Dump(sibling)
@@ -465,6 +479,32 @@ func runC12(c *engine.Ctx) {
 			oracle = "C12.empty-permutation"
 		}
 		c.Fail(oracle, cp, "after InterpolateMatrixPermutation(%v) the step differs from the single-pass replacement of the original (want vs got): %s\nmap order mode=%d visitnew=%v\nstep: %s", pk, d, zzverifsim.Mode, zzverifsim.VisitNew, truncate(string(src), 1500))
+	}
+	// the same rule seen from the document: every key of the step that is not one of the documented typed keys is
+	// an "unknown field" whatever Go field holds it - its name and everything below it is in scope
+	if docBefore != nil && docBefore.Kind == gen.KMap && len(perm) > 0 {
+		var docAfter *gen.Node
+		if aj, err := json.Marshal(&cs); err == nil {
+			docAfter, _ = gen.FromJSON(aj)
+		}
+		typed := map[string]bool{"command": true, "commands": true, "label": true, "name": true, "plugins": true, "env": true, "key": true, "id": true, "identifier": true,
+			"matrix": true, "signature": true, "cache": true, "type": true}
+		if docAfter != nil && docAfter.Kind == gen.KMap {
+			for i, k := range docBefore.Keys {
+				if typed[k] {
+					continue
+				}
+				want := tfAll(docBefore.Vals[i])
+				got := docAfter.Get(rep(k))
+				if got == nil {
+					c.Fail("C12.tree", "document view: unknown field missing", "the step's unknown field %q is missing (under its replaced name %q) from the step's JSON after InterpolateMatrixPermutation(%v)\nstep: %s", k, rep(k), pk, truncate(string(src), 1200))
+				}
+				if d, _ := gen.DiffClass(want, got, k, ""); d != "" {
+					c.Fail("C12.tree", "document view: unknown field "+map[bool]string{true: "`" + k + "`", false: "(generated name)"}[isAttributeName(k)], "after InterpolateMatrixPermutation(%v) the step's unknown field %q differs from the single-pass replacement of the original (want vs got): %s\nstep: %s", pk, k, d, truncate(string(src), 1200))
+				}
+			}
+			c.Probe("document_view_checked")
+		}
 	}
 	if len(perm) == 0 {
 		c.Probe("empty_permutation_runs")
